@@ -21,6 +21,8 @@ pub enum Mutation {
     PayloadNotObject(Value),
     EmptyContext,
     UndefinedType,
+    /// every optional field is sent as an explicit null (a conforming spelling of "no value")
+    NullOptionals,
 }
 
 #[derive(Clone, Debug, Serialize, Deserialize)]
@@ -180,8 +182,22 @@ fn ref_validate(td: &TypeDef, payload: &Value) -> Tri {
 
 fn case_strategy(tier: Tier, brace_ok: bool) -> BoxedStrategy<Case> {
     let _ = brace_ok;
-    (typedef_strategy("ev", 2, 6), cfg_strategy(2), any::<bool>())
-        .prop_flat_map(move |(td, cfg, flush_at_end)| {
+    (typedef_strategy("ev", 2, 6), cfg_strategy(2), any::<bool>(), any::<u8>(), 0u8..4)
+        .prop_flat_map(move |(mut td, cfg, flush_at_end, optbits, extra_time)| {
+            // validation of one field must not depend on the others: more nullable fields than the shared type strategy makes,
+            // and in half of the cases two or three extra time fields (plain and nullable) next to the generated ones
+            for (i, f) in td.fields.iter_mut().enumerate() {
+                if (optbits >> i) & 1 == 1 && !matches!(f.ty, FT::Enum(_)) {
+                    f.opt = true;
+                }
+            }
+            if extra_time >= 2 {
+                td.fields.push(FieldDef { name: "tn".into(), ty: FT::Datetime, opt: true, alias: "datetime".into() });
+                td.fields.push(FieldDef { name: "tq".into(), ty: FT::Date, opt: false, alias: "date".into() });
+                if extra_time == 3 {
+                    td.fields.push(FieldDef { name: "tm".into(), ty: FT::Date, opt: true, alias: "date".into() });
+                }
+            }
             let nf = td.fields.len();
             let names: Vec<String> = td.fields.iter().map(|f| f.name.clone()).collect();
             let ev = ev_strategy(&[td.clone()], 3);
@@ -195,8 +211,9 @@ fn case_strategy(tier: Tier, brace_ok: bool) -> BoxedStrategy<Case> {
                 1 => prop::sample::select(vec![json!([1]), json!("str"), json!(5), json!(null), json!(true)]).prop_map(Mutation::PayloadNotObject),
                 1 => Just(Mutation::EmptyContext),
                 1 => Just(Mutation::UndefinedType),
+                3 => Just(Mutation::NullOptionals),
             ];
-            let attempt = (ev, prop::collection::vec(mutation, 1..=2)).prop_map(|(base, muts)| Attempt { base, muts });
+            let attempt = (ev, prop::collection::vec(mutation, 1..=3)).prop_map(|(base, muts)| Attempt { base, muts });
             let _ = names2;
             let td2 = td.clone();
             let redefine = prop::option::weighted(0.5, typedef_strategy("ev", 1, 3)).prop_map(move |o| {
@@ -270,6 +287,14 @@ fn run_case(c: &Case, rep: &mut CaseReport) -> Verdict {
         for m in &a.muts {
             match m {
                 Mutation::None => {}
+                Mutation::NullOptionals => {
+                    if let Some(o) = payload.as_object_mut() {
+                        for f in c.td.fields.iter().filter(|f| f.opt) {
+                            o.insert(f.name.clone(), Value::Null);
+                        }
+                        mutated = true;
+                    }
+                }
                 Mutation::DropKey(i) => {
                     if let Some(o) = payload.as_object_mut() {
                         o.remove(&key_of(*i));
@@ -421,7 +446,7 @@ pub fn run(ctx: &Ctx) -> i32 {
     let mut report = Report::new(
         "C06",
         "exploration",
-        "generated (schema over every primitive alias / enum / optional / time type, 10-120 STORE attempts each derived from a conforming payload by 1-2 mutations: drop / add / misspell a key, any JSON type or boundary value in any slot, non-object payload, empty context, undefined type; optional failing re-DEFINE first). Each response is compared with a reference validator (accept / reject / either); afterwards, and after a FLUSH, the readable events must be exactly the accepted ones. Non-trivial: a mutated payload or a STORE after a failed DEFINE.",
+        "generated (schema over every primitive alias / enum / optional / time type, extra plain and nullable time fields in half of the cases; 10-120 STORE attempts each derived from a conforming payload by 1-3 mutations: drop / add / misspell a key, any JSON type or boundary value in any slot, an explicit null in every optional field, non-object payload, empty context, undefined type; optional failing re-DEFINE first). Each response is compared with a reference validator (accept / reject / either); afterwards, and after a FLUSH, the readable events must be exactly the accepted ones. Non-trivial: a mutated payload or a STORE after a failed DEFINE.",
     );
     report.assumptions = vec!["EITHER: integer number in a float field, N.0 in an integer field, numeric strings / negative or float epochs in time fields, date string in a datetime field and vice versa".into()];
     replay_known(ctx, &stats, &mut report, &replay);
